@@ -69,10 +69,14 @@ def arg_tok(a):
         '~'.join(hx(c) for c in a['chk']) or '-', '~'.join(hx(c) for c in a['con']) or '-', hx(a['desc']))
 
 
-def mk_case(flags, width, cmds, args, t1=None, t2=None):
-    """t1 / t2: usage texts (position 'b'|'a'|'u', text) given to the constructor"""
+def mk_case(flags, width, cmds, args, t1=None, t2=None, groups=()):
+    """t1 / t2: usage texts (position 'b'|'a'|'u', text) given to the constructor;
+    groups: sub-groups (keyspec, flags of the sub-group handler, description, arguments)"""
     txt = ''.join(' %s=%s:%s' % (n, t[0], hx(t[1])) for n, t in (('t1', t1), ('t2', t2)) if t)
-    return 'f=%d w=%d c=%s%s %s' % (flags, width, ','.join(cmds) or '-', txt, ' '.join(arg_tok(a) for a in args))
+    r = 'f=%d w=%d c=%s%s %s' % (flags, width, ','.join(cmds) or '-', txt, ' '.join(arg_tok(a) for a in args))
+    for (k, gf, gd, gargs) in groups:
+        r += ' g:%s:%d:%s' % (k, gf, hx(gd)) + ''.join(' ' + arg_tok(a) for a in gargs)
+    return r
 
 
 def parse_texts(case):
@@ -83,8 +87,28 @@ def parse_texts(case):
     return t.get('t1'), t.get('t2')
 
 
+def parse_groups(case):
+    groups = []
+    for t in case.split(' '):
+        if t.startswith('g:'):
+            f = t.split(':')
+            groups.append((f[1], int(f[2]), unhx(f[3]), []))
+        elif t.startswith('a:') and groups:
+            groups[-1][3].append(_parse_arg(t))
+    return groups
+
+
+def _parse_arg(t):
+    f = t.split(':')
+    return mk_arg(f[1], f[2], unhx(f[3]), '' if f[4] == '-' else f[4], unhx(f[5]), unhx(f[6]),
+                  [unhx(c) for c in f[7].split('~')] if f[7] != '-' else [],
+                  [unhx(c) for c in f[8].split('~')] if f[8] != '-' else [], unhx(f[9]))
+
+
 def parse_case(case):
+    """flags, width, commands and the arguments of the MAIN handler"""
     flags, width, cmds, args = 0, 80, [], []
+    case = case.split(' g:')[0]
     for t in case.split(' '):
         if t.startswith('f='):
             flags = int(t[2:])
@@ -280,10 +304,19 @@ def _violation(case, ir):
             'usage-texts', 'this combination of usage texts must be refused by the constructor, got ' + res[:60])
     if res.startswith('setup:'):
         return None   # the configuration was refused: nothing was printed
-    ds = std_args(flags) + [descr(a) for a in args]
+    groups = parse_groups(case)
+    main_ds = std_args(flags) + [descr(a) for a in args]
+    sub_entries = [_std(*split_key(k), gd) for (k, gf, gd, ga) in groups]
+    ds = main_ds + sub_entries          # the description list of the main handler
     p = {'hidden': bool(flags & F['UsageHidden']), 'depr': bool(flags & F['UsageDeprecated']), 'cont': 'all'}
     want_out, want_err, printed, expect_err = [], [], False, None
     for c in cmds:
+        if re.match(r's\d+$', c):
+            # usage of a sub-group: exactly its visible arguments under the settings in force now; the main
+            # handler does not count this as "usage printed"
+            k, gf, gd, ga = groups[int(c[1:])]
+            want_out += expected_usage(p, std_args(gf & 3) + [descr(a) for a in ga])
+            continue
         if c == 'ph':
             p['hidden'] = True
         elif c == 'pd':
@@ -303,7 +336,9 @@ def _violation(case, ir):
             printed = True
         elif c.startswith('ha='):
             q = unhx(c[3:])
-            how, d = lookup(ds, not flags & F['NoAbbr'], q)
+            how, d = lookup(main_ds, not flags & F['NoAbbr'], q)
+            if how == 'unknown':
+                how, d = lookup(sub_entries, not flags & F['NoAbbr'], q)   # mArguments first, then mSubGroupArgs
             if how == 'ambiguous':
                 expect_err = 'err:runtime_error'
                 break
@@ -356,6 +391,9 @@ def _violation(case, ir):
             return lab, 'help for one argument: expected %r, got %r' % (want_cmp[:4], got_cmp[:4])
     elif got_out != want_out:
         lab, why = _diff_label(want_out, got_out)
+        if any(re.match(r's\d+$', c) for c in cmds):
+            return 'sub-group-usage', ('usage of a sub-group / of a handler with sub-groups under the settings in force '
+                                       '(hidden=%s deprecated=%s contents=%s): ' % (p['hidden'], p['depr'], p['cont'])) + why
         hpos = min([i for i, c in enumerate(cmds) if c in ('h', 'H')] or [len(cmds)])
         if lab == 'entry-missing' and (('ph' in cmds[:hpos] and flags & F['UsageHidden'])
                                        or ('pd' in cmds[:hpos] and flags & F['UsageDeprecated'])):
@@ -442,6 +480,9 @@ def histogram_keys(case, mr):
     t1, t2 = parse_texts(case)
     if t1 or t2:
         keys.append('usage-texts' if texts_valid(t1, t2) else 'usage-texts-refused')
+    if ' g:' in case:
+        keys.append('sub-group-usage:' + '+'.join(sorted(c for c in cmds if c in ('ph', 'pd', 'hs', 'hl')))
+                    if any(re.match(r's\d+$', c) for c in cmds) else 'sub-groups-defined')
     ds = [descr(a) for a in args]
     if any(len(key_text('all', d)) >= 38 for d in ds):
         keys.append('long-key')
@@ -475,6 +516,14 @@ def rtext(rng, nwords):
             line = ['-', rword(rng)] if rng.chance(1, 2) else ['-' + rword(rng)]
         elif r == 3:
             line.append(rword(rng, 12, 30))
+        elif r == 4 and rng.chance(1, 2):
+            # a word around / above the width of the description column (35 next to a 39 character key,
+            # 74 in the two-line layout, 77 for --help-arg); first on its line in half of the cases
+            w = 'w' * (rng.choice([35, 74, 77, 50, 60]) + rng.choice([-1, 0, 1, 20]))
+            if line and rng.chance(1, 2):
+                out.append(' '.join(line))
+                line = []
+            line.append(w)
         else:
             line.append(rword(rng))
     if line:
@@ -619,6 +668,17 @@ CORPUS = [
     mk_case(F['UsageCont'] | 1, 80, ['h'], [], None, ('a', 'second only')),
     mk_case(F['UsageCont'] | 1, 80, ['h'], [], ('a', 'one'), ('b', 'two')),
     mk_case(F['UsageCont'] | 1, 80, ['h'], [], ('b', 'one'), ('b', 'two')),
+    # sub-group usage after a display option on the main command line (seeded: private copy of the settings)
+    mk_case(ALLSET, 80, ['ph', 's0'], [mk_arg('t,top', 'i', '', 'n', desc='toplevel')],
+            groups=[('i', 3, 'input arguments', [mk_arg('c', 'i', '', 'n', desc='cachearg'),
+                                                 mk_arg('s,secret', 'i', '', 'nh', desc='secretarg')])]),
+    mk_case(ALLSET, 80, ['hl', 's0', 'pd', 'h'], [mk_arg('t,top', 'i', '', 'n', desc='toplevel')],
+            groups=[('i,input', 2, 'input arguments', [mk_arg('c', 'i', '', 'n', desc='cachearg'),
+                                                       mk_arg('f,file', 's', '', 'n', desc='filearg'),
+                                                       mk_arg('former', 'i', '', 'n', repl='-c', desc='formerarg')])]),
+    mk_case(ALLSET, 80, ['s0'], [mk_arg('t,top', 'i', '', 'm', desc='mandatory on top: still checked')],
+            groups=[('i', 1, 'input arguments', [mk_arg('c', 'i', '', 'm', desc='cachearg')])]),
+    mk_case(ALLSET, 80, ['ha=' + hx('i')], [], groups=[('i,input', 1, 'input arguments nn second line', [])]),
     # no visible argument at all; only mandatory; only optional
     mk_case(F['UsageCont'] | 1, 80, ['h'], []),
     mk_case(F['UsageCont'] | 1 | F['UsageLong'], 80, ['hl', 'h'], [mk_arg('a', 'i', '', 'm', desc='x')]),
@@ -637,6 +697,29 @@ CORPUS = [
     mk_case(ALLSET, 80, ['ha=' + hx('help-a')], []),
     mk_case(ALLSET, 80, ['ha=' + hx('help')], []),
 ]
+
+
+def long_word_cases():
+    """descriptions whose first / middle / last word (also the first word after an embedded newline) has a length
+    around and above the width of the description column: 80 - indent - 1 characters still fit"""
+    cases = []
+    f_usage = F['UsageCont'] | 1
+    f_harg = F['UsageCont'] | 1 | F['HelpArg']
+    layouts = [('one-line', 'k' * 37, 80 - (6 + 39)),     # key text "--" + 37 = 39 characters, same line
+               ('one-line-short', 'kk', 80 - (6 + 4)),    # key text "--kk"
+               ('two-line', 'k' * 38, 80 - 6),            # key text of 40 characters: description on its own lines
+               ('help-arg', 'key', 80 - 3)]
+    for name, key, limit in layouts:
+        for delta in (-2, -1, 0, 1, 20):
+            w = 'w' * (limit + delta)
+            for desc in (w + ' aa bb', 'aa ' + w + ' bb', 'aa bb ' + w, 'aa\n' + w + ' bb', w, '- ' + w + ' aa',
+                         'aa nn ' + w):
+                args = [mk_arg(key, 'i', '', 'n', desc=desc), mk_arg('b', 'i', '', 'mn', desc='short')]
+                if name == 'help-arg':
+                    cases.append(mk_case(f_harg, 80, ['ha=' + hx(key)], args))
+                else:
+                    cases.append(mk_case(f_usage, 80, ['h'], args))
+    return cases
 
 
 def family_sets(rng, n):
@@ -660,8 +743,41 @@ def family_sets(rng, n):
     return sets
 
 
+SUBKEYS = ['e,extra', 'l', 'part', 'e', 'left,l', 'p,part']
+
+
+def rgroups(rng, n):
+    ks, groups = [], []
+    for _ in range(n):
+        for _ in range(10):
+            k = rng.choice(SUBKEYS)
+            if not any(set(k.split(',')) & set(o.split(',')) for o in ks):
+                break
+        else:
+            break
+        ks.append(k)
+        groups.append((k, rng.choice([1, 2, 3, 3]), rtext(rng, rng.choice([1, 3, 8])),
+                       rargs(rng, rng.choice([0, 1, 2, 3, 5]), long_keys=rng.chance(1, 3))))
+    return groups
+
+
+def subgroup_cases(rng, nsets):
+    """the usage of a sub-group after display settings given on the main command line"""
+    cases = []
+    sets = family_sets(rng, nsets)
+    main_args = [mk_arg('t,top', 'i', '', 'n', desc='toplevel'), mk_arg('z', 's', '', 'h', desc='hidden on top')]
+    for gargs in sets:
+        for uh, ud in itertools.product((0, 1), repeat=2):
+            f = ALLSET | (F['UsageHidden'] if uh else 0) | (F['UsageDeprecated'] if ud else 0)
+            for ph, pd in itertools.product((0, 1), repeat=2):
+                for cont in ([], ['hs'], ['hl']):
+                    cmds = (['ph'] if ph else []) + (['pd'] if pd else []) + cont + ['s0']
+                    cases.append(mk_case(f, 80, cmds, main_args, groups=[('i,input', 3, 'input arguments', gargs)]))
+    return cases
+
+
 def gen_cases(tier, rng):
-    cases = list(CORPUS)
+    cases = list(CORPUS) + long_word_cases() + subgroup_cases(rng, 6 if tier == 'quick' else 30)
     # every combination of the display settings for a family of argument sets
     nsets = 12 if tier == 'quick' else 60
     for args in family_sets(rng, nsets):
@@ -695,6 +811,21 @@ def gen_cases(tier, rng):
             elif m == 1:
                 q = q + 'x'
             cmds = sc + ['ha=' + hx(q)]
+        if rng.chance(1, 6):
+            # one level of sub-groups: settings, then the usage of a sub-group, perhaps more settings and the
+            # usage of the main handler (never -h directly after the sub-group request: it would go to the sub-group)
+            groups = rgroups(rng, rng.choice([1, 1, 2]))
+            args = [a for a in args if 'm' not in a['letters']] if rng.chance(3, 4) else args
+            sc2 = [c for c in setting_cmds(f) if c not in sc and rng.chance(1, 3)]
+            r = rng.below(6)
+            if r == 0:
+                cmds = sc + [help_cmd(rng, f)]                     # main usage lists the sub-group arguments
+            elif r == 1 and f & F['HelpArg']:
+                cmds = sc + ['ha=' + hx(rng.choice(groups[0][0].split(',')))]
+            else:
+                cmds = sc + ['s%d' % rng.below(len(groups))] + sc2 + ([help_cmd(rng, f)] if sc2 and rng.chance(1, 2) else [])
+            cases.append(mk_case(f, width, cmds, args, groups=groups))
+            continue
         t1 = t2 = None
         if any(c in ('h', 'H') for c in cmds) and rng.chance(1, 4):
             t1 = (rng.choice('bbau'), rusage_text(rng))
@@ -711,11 +842,24 @@ def gen_cases(tier, rng):
                        'line lengths 60..239, usage texts before / after / unused incl. refused combinations, settings '
                        'before/after the help argument, --help-arg with exact / '
                        'abbreviated / ambiguous / unknown keys)' % nrand,
-                       'corpus: %d hand-made cases' % len(CORPUS)]}
+                       'corpus: %d hand-made cases; %d descriptions whose first / middle / last word is 2 below .. 20 '
+                       'above the width of the description column (one-line, two-line layout, --help-arg)'
+                       % (len(CORPUS), len(long_word_cases()))]}
 
 
 def shrink(case):
     flags, width, cmds, args = parse_case(case)
+    groups = parse_groups(case)
+    if groups:
+        for gi, (k, gf, gd, ga) in enumerate(groups):
+            for i in range(len(ga)):
+                yield mk_case(flags, width, cmds, args, groups=groups[:gi] + [(k, gf, gd, ga[:i] + ga[i + 1:])] + groups[gi + 1:])
+        for i in range(len(args)):
+            yield mk_case(flags, width, cmds, args[:i] + args[i + 1:], groups=groups)
+        for i in range(len(cmds)):
+            if len(cmds) > 1:
+                yield mk_case(flags, width, cmds[:i] + cmds[i + 1:], args, groups=groups)
+        return
     t1, t2 = parse_texts(case)
     if t1 or t2:
         # first try without the texts, then keep them fixed
